@@ -243,6 +243,28 @@ def _make_f(case, fc, n_in, theta):
     """JAX boundary function of one facet: `f(dx)` / `f(t, dx)`"""
     import jax.numpy as jnp
 
+    if case.get("spinn"):
+        # a SPINN hands the whole tensor grid to f: arrays (..., d) [and (..., 1) for t]; evaluate on the last axis
+        terms_ = [pterms(js) for js in fc["f"]]
+
+        def gval(z):
+            zs = [z[..., j] for j in range(z.shape[-1])] + [jnp.asarray(theta, dtype=z.dtype)]
+            vs = []
+            for tt in terms_:
+                tot = jnp.zeros(z.shape[:-1], dtype=z.dtype)
+                for coef, e in tt:
+                    t = jnp.ones(z.shape[:-1], dtype=z.dtype) * coef
+                    for j, k in enumerate(e):
+                        for _ in range(k):
+                            t = t * zs[j]
+                    tot = tot + t
+                vs.append(tot)
+            return vs[0] if fc["fret"] == "scalar" else jnp.stack(vs, axis=-1)
+
+        if case["kind"] == "nonstatio":
+            return lambda t, dx: gval(jnp.concatenate([t, dx], axis=-1))
+        return gval
+
     terms = [pterms(js) for js in fc["f"]]
     fret = fc["fret"]
     nonstatio = case["kind"] == "nonstatio"
@@ -362,8 +384,18 @@ def build(case, arrays=None):
     if case.get("kappa") is not None:
         eqp0["kappa"] = jnp.asarray(float(F(case["kappa"])))
         ot = lambda inp, out, params: out + jnp.reshape(params.eq_params["kappa"], ()) * inp[0]
-    u = make_pinn(polys, eq_type, input_transform=it, output_transform=ot,
-                  slice_solution=_slice(case.get("slice_solution")))
+    if case.get("spinn"):
+        # a real separable network: sub-network k is a vector of R*m polynomials of coordinate k
+        # (`harness/c11.py: _polyfeat_cls`, imported read-only); its pointwise twin is case["u"]
+        from harness.c11 import _polyfeat_cls
+        from jinns.utils._spinn import SPINN
+
+        sp = case["spinn"]
+        coef = jnp.asarray([[[float(F(x)) for x in row] for row in sub_] for sub_ in sp["coef"]], dtype=jnp.float64)
+        u = SPINN(spinn_mlp=_polyfeat_cls()(coef=coef), d=n_in, r=sp["R"], eq_type=eq_type, m=m)
+    else:
+        u = make_pinn(polys, eq_type, input_transform=it, output_transform=ot,
+                      slice_solution=_slice(case.get("slice_solution")))
     params = Params(nn_params=u.init_params(), eq_params=eqp0)
     pbd = None
     if case.get("pbatch"):
@@ -548,21 +580,30 @@ def lean_case(case, arrays):
         c = case["boundary"]
         border = arrays["border"]
         nF = len(border[0][0])
-        pts_all = _uniq([p for k in range(nF) for p in facet_points(border, k)])
+        grid = bool(case.get("spinn"))
+
+        def eval_points(k):
+            rows = facet_points(border, k)
+            if not grid:
+                return rows
+            cols = [[r[j] for r in rows] for j in range(len(rows[0]))]
+            return [list(p) for p in itertools.product(*cols)]
+
+        pts_all = _uniq([p for k in range(nF) for p in eval_points(k)])
         sp = 1 if kind == "nonstatio" else 0
         facets = []
         for k, fc in enumerate(c["facets"]):
             if fc is None:
                 facets.append(None)
                 continue
-            pts = pts_all if c["global"] else _uniq(facet_points(border, k)) if k < nF else []
+            pts = pts_all if c["global"] else _uniq(eval_points(k)) if k < nF else []
             dim = fc["dim"]
             if isinstance(dim, int):
                 dim = [dim, dim + 1]
             facets.append({"cond": fc["cond"], "dim": dim, "fret": "scalar" if fc["fret"] == "scalar" else "vec",
                            "ftab": [[qrow(p), qrow(ex.fn(fc["f"], p))] for p in pts]})
         out["boundary"] = {
-            "w": c["w"], "global": c["global"], "facets": facets,
+            "w": c["w"], "global": c["global"], "facets": facets, "grid": grid,
             "border": [[qrow(cc) for cc in row] for row in border],
             "utab": [[qrow(p), qrow(ex.uval(p))] for p in pts_all],
             "jtab": [[qrow(p), [qrow(row[sp:]) for row in ex.jac(p)]] for p in pts_all],
@@ -634,7 +675,7 @@ def divisors_exact(case, arrays):
         ns.append(len(case["norm"]["samples"]) * (sol_slice(case)[1] - sol_slice(case)[0]))
         ns.append(len(arrays["inside"]))
     if case.get("boundary") and arrays["border"] is not None:
-        ns.append(len(arrays["border"]))
+        ns.append(len(arrays["border"]))  # (a SPINN averages over rows ** coordinates: a power of two as well)
     if case.get("obs"):
         ns.append(len(arrays["obs"]["ins"]))
     return all(is_pow2(n) for n in ns)
@@ -726,6 +767,33 @@ def gen_border(rng, kind, d, nb, nt=1, lo=-1, hi=2):
     return [[[t] * nF] + row for t in ts for row in dx]
 
 
+def gen_spinn(rng, kind, d, m, R=2, deg=2):
+    """coefficients (D, R*m, deg+1) of the polynomial feature maps of a separable network, and its pointwise
+    twin  u_c(z) = sum_r prod_k f_{k, c R + r}(z_k)  as polynomials in (inputs, theta) (theta unused)"""
+    D = {"statio": d, "nonstatio": 1 + d}[kind]
+    coef = [[[rng.randint(-2, 2) for _ in range(deg + 1)] for _ in range(R * m)] for _ in range(D)]
+    for k in range(D):
+        for row in coef[k]:
+            if row[1] == 0 and row[2] == 0:
+                row[rng.choice([1, 2])] = nz_int(rng, 2)
+    nv = D + 1
+    polys = []
+    for c in range(m):
+        tot = P(nv)
+        for r in range(R):
+            pr = P.const(nv, 1)
+            for k in range(D):
+                fk = P(nv)
+                zk = P.const(nv, 1)
+                for e in range(deg + 1):
+                    fk = fk + zk * coef[k][c * R + r][e]
+                    zk = zk * P.var(nv, k)
+                pr = pr * fk
+            tot = tot + pr
+        polys.append(tot)
+    return {"R": R, "deg": deg, "coef": coef}, [p.to_json() for p in polys]
+
+
 def gen_boundary(rng, case, allow_dict=True):
     """a boundary configuration for `case` (needs case['u'], kind, d, m, theta)"""
     ex = Exact(case)
@@ -755,7 +823,7 @@ def gen_boundary(rng, case, allow_dict=True):
             fs = [(ex.du[c][sp + j] * sgn if cond == "neumann" else ex.u[c]) for c in range(lo_, hi_)]
             if mode == "neg":
                 fs = [-p for p in fs]
-        if len(fs) > 1 and rng.random() < 0.3:
+        if len(fs) > 1 and rng.random() < 0.3 and not case.get("spinn"):
             fs = fs[:1]  # a single function broadcast over the selected components
         fret = "vec"
         if len(fs) == 1 and rng.random() < 0.5:
